@@ -126,19 +126,20 @@ func ruleJSONDEFAULTS(c *Ctx, r *Report) {
 		// constants compared in the encoder
 		badOp := ""
 		compared := map[string]string{}
-		for _, bb := range enc.Blocks {
-			for _, in := range bb.Instrs {
-				bo, ok := in.(*ssa.BinOp)
-				if !ok || !isCmp(bo.Op) {
+		// path-based, helpers read in place (the comparison may sit in a small generic helper)
+		encPaths, _ := c.enumPathsInl(enc, 5000)
+		for _, p := range encPaths {
+			for _, a := range p.Atoms {
+				if a.Kind != "cmp" || !strings.HasSuffix(a.Subj, "."+f.Name()) {
 					continue
 				}
-				for _, pair := range [][2]ssa.Value{{bo.X, bo.Y}, {bo.Y, bo.X}} {
-					if k, ok := pair[1].(*ssa.Const); ok && k.Value != nil && strings.HasSuffix(c.key(pair[0], nil), "."+f.Name()) {
-						compared[normNum(k.Value)] = c.instrPos(in)
-						if op := bo.Op.String(); op != "!=" && op != "==" {
-							badOp = op
-						}
-					}
+				var fv float64
+				if _, err := fmt.Sscan(a.Val, &fv); err != nil {
+					continue
+				}
+				compared[fmt.Sprintf("%g", fv)] = c.instrPos(p.Ret)
+				if a.Op != "!=" && a.Op != "==" {
+					badOp = a.Op
 				}
 			}
 		}
